@@ -42,3 +42,13 @@ also('_getMsg/alert-branch', 'contracts.m2_getmsg', 'C08')
 # the MAC object as a parameter)
 also('RecordLayer._getMacSettings', 'contracts.suites', 'C12')
 also('RecordLayer._getHMACMethod', 'contracts.suites', 'C12')
+# C20 "the MAC ... actually used on the wire are those denoted by the suite's IANA name": the SSLv3 MAC construction of the MD5 / SHA-1 suites
+also('MAC_SSL.create', 'contracts.kdf', 'C20')
+also('MAC_SSL.digest', 'contracts.kdf', 'C20')
+# C06 "wrong-epoch message ... aborts": the early-data window (undecryptable records skipped) closes with the first record that
+# is delivered; the unprotected-alert exception of TLS 1.3
+also('recvRecord/delivery', 'contracts.m2_recordio', 'C06', 'C17')
+# C19 "compatible settings connect" / C10 "any change to the message is rejected": snapshots of the transcript are faithful copies;
+# a parsed ServerKeyExchange re-serialises (and hashes for the signature check) to the bytes received
+also('HandshakeHashes.copy/completeness', 'contracts.settings_copy', 'C19')
+also('ServerKeyExchange.writeParams/layout', 'contracts.ske_write', 'C10')
